@@ -245,4 +245,36 @@ theorem sups_unchanged (c : Cfg) (s s' : State) (act : Act) (hs : Step c s act s
     (h1 : isSupAct act = false) (h2 : isRenewAct act = false) : s'.sups = s.sups := by
   cases hs <;> first | rfl | (simp [isSupAct] at h1; done) | (simp [isRenewAct] at h2; done)
 
+/-- Once all suppliers have ended: in **any** continuation that contains no `renew` action the
+    consumers make at most `mu s` real moves (supplier actions cannot occur, everything else leaves
+    the suppliers ended and does not increase `mu`). -/
+theorem moves_le_mu_ended (c : Cfg) : ∀ (as : List Act) (s s' : State), Core.run (step c) s as = some s' →
+    (∀ a ∈ s.sups, a.pc = .ended) → (∀ a ∈ as, isRenewAct a = false) →
+    as.countP isConsMove + mu s' ≤ mu s ∧ (∀ a ∈ s'.sups, a.pc = .ended) := by
+  intro as
+  induction as with
+  | nil => intro s s' hr hsup _; simp at hr; subst hr; exact ⟨by simp, hsup⟩
+  | cons a as ih =>
+    intro s s' hr hsup hall
+    rw [Core.run_cons] at hr
+    cases hst : step c s a with
+    | none => simp [hst] at hr
+    | some s1 =>
+      simp [hst] at hr
+      have h2 := hall a (List.mem_cons_self)
+      have h1 : isSupAct a = false := by
+        cases hsa : isSupAct a with
+        | false => rfl
+        | true => rw [sup_disabled c s hsup a hsa] at hst; cases hst
+      have hstep := step_sound c s s1 a hst
+      have hm := mu_step c s s1 a hstep h1 h2
+      have hs1 : ∀ b ∈ s1.sups, b.pc = .ended := by
+        rw [sups_unchanged c s s1 a hstep h1 h2]; exact hsup
+      obtain ⟨ih1, ih2⟩ := ih s1 s' hr hs1 (fun b hb => hall b (List.mem_cons_of_mem _ hb))
+      refine ⟨?_, ih2⟩
+      rw [List.countP_cons]
+      cases hc : isConsMove a with
+      | true => have := hm.1 hc; simp; omega
+      | false => have := hm.2; simp; omega
+
 end IterQueue
